@@ -17,14 +17,19 @@ RULE = ('corpus; quota grid: votes 0..300 x seats 1..40 (+1e3 large random pairs
         'absent|present; boundary: votes an exact multiple of the quota, Imperiali over-award, equal remainders at the cut, '
         'tiny electorates; after-tie: on_overaward=subtract with an over-award of 2..4 seats and a group of parties tied for the '
         'first withdrawal, so that _subtract_overaward goes on with a Tie key in `selected` (counted on the implementation side as '
-        'reached:subtract-after-tie); both QuotaDistributor and LargestRemainder. non-trivial = tie in result or prev/caps non-empty or '
-        'over-award or a party exactly on a quota multiple; distinct by hash of the canonical case. Cases in the recorded '
-        'defect classes (cap branch entered, negative n_for_remainder) are compared with the faithful model and judged by '
-        'the declarative caps/total checker')
-PARTIAL = ['capped statement: refuted on the pinned tree (known findings C02-capbranch, C02-lr-caps); the positive theorem is stated for the uncapped domain',
-           '_subtract_overaward: a Tie key tied with another key (a Tie of a Tie) is not modelled - proved unreachable on the '
-           'uncapped domain with a positive quota (C02_subtract_modelled); tie keys coming back from the recursive cap call and '
-           'LargestRemainder over tie keys: not modelled (cases skipped and counted)']
+        'reached:subtract-after-tie); caps: caps below / at / one above the whole quotas, with previous gains, below the previous gains, '
+        'every party capped (open seats outnumber the parties that may take one), whole quotas above the house without a cap (counted as '
+        'reached:cap-binds:<unit> when a cap cuts whole quotas); both QuotaDistributor and LargestRemainder. non-trivial = tie in result or '
+        'prev/caps non-empty or over-award or a party exactly on a quota multiple; distinct by hash of the canonical case. Every '
+        'implementation answer is compared with the extracted model AND judged by the declarative clauses of the property (spec: caps, '
+        'whole quotas cut at the cap, at most one further seat to the largest remainders below the caps, ties at the cut, totals, the '
+        'three over-award policies). Skipped and counted: non-positive quota, previous gains above the house, more than 3000 rounds '
+        'of _subtract_overaward')
+PARTIAL = ['LargestRemainder under-fills the house when the open seats outnumber the parties below their caps: at most one further seat per '
+           'party is the documented design (known finding C02-lr-underfill; exact total proved, C02_lr_caps)',
+           '_subtract_overaward: a Tie key tied with another key (a Tie of a Tie) is not modelled - proved unreachable with a positive quota '
+           'for any caps (C02_subtract_policy_capped); LargestRemainder over a quota stage that returned tie keys: not modelled (cases '
+           'skipped and counted)']
 TRUSTED = []
 QN = {1: 'hare', 2: 'hare_rounded', 3: 'droop', 4: 'hagenbach_bischoff', 5: 'hagenbach_bischoff_ceil',
       6: 'hagenbach_bischoff_rounded', 7: 'imperiali'}
